@@ -215,6 +215,76 @@ func TestGovcReplay(t *testing.T) {
 }
 `
 		return c.runReplayTest(".", map[string]string{"test.go": test}, "TestGovcReplay")
+	case fn == "(*timednetconn.conn).Read" || fn == "(*timednetconn.conn).Write":
+		test := `package timednetconn
+
+import ("fmt"; "net"; "testing"; "time")
+
+type rpConn struct { net.Conn; events []string; deadlines []time.Time }
+func (c *rpConn) SetReadDeadline(t time.Time) error { c.events = append(c.events, "rd"); c.deadlines = append(c.deadlines, t); return nil }
+func (c *rpConn) SetWriteDeadline(t time.Time) error { c.events = append(c.events, "wd"); c.deadlines = append(c.deadlines, t); return nil }
+func (c *rpConn) Read(p []byte) (int, error) { c.events = append(c.events, "r"); return len(p), nil }
+func (c *rpConn) Write(p []byte) (int, error) { c.events = append(c.events, "w"); return len(p), nil }
+
+func TestGovcReplay(t *testing.T) {
+	rc := &rpConn{}
+	c := New(200*time.Millisecond, 300*time.Millisecond, rc)
+	buf := make([]byte, 4)
+	confirmed := false
+	for k := 0; k < 3; k++ {
+		n0 := len(rc.events)
+		t0 := time.Now()
+		c.Read(buf)
+		ev := rc.events[n0:]
+		if len(ev) != 2 || ev[0] != "rd" || ev[1] != "r" || rc.deadlines[len(rc.deadlines)-1].Before(t0.Add(200*time.Millisecond)) {
+			confirmed = true
+			fmt.Printf("REPLAY-CONFIRMED timednetconn Read #%d: calls on the connection %v (expected a fresh read deadline, then the read)\n", k, ev)
+		}
+		n0 = len(rc.events)
+		t0 = time.Now()
+		c.Write(buf)
+		ev = rc.events[n0:]
+		if len(ev) != 2 || ev[0] != "wd" || ev[1] != "w" || rc.deadlines[len(rc.deadlines)-1].Before(t0.Add(300*time.Millisecond)) {
+			confirmed = true
+			fmt.Printf("REPLAY-CONFIRMED timednetconn Write #%d: calls on the connection %v (expected a fresh write deadline, then the write)\n", k, ev)
+		}
+		time.Sleep(120 * time.Millisecond)
+	}
+	if !confirmed { fmt.Println("REPLAY-NOT-REPRODUCED") }
+}
+`
+		return c.runReplayTest("pkg/timednetconn", map[string]string{"test.go": test}, "TestGovcReplay")
+	case fn == "message.removeEmptyBytes":
+		_, n, _ := findKey(m, "buf.len!1")
+		if n > 300 {
+			n = 0 // the model's buffer is too long to build; the family of short buffers below is still tried
+		}
+		b := modelBytes(v, "buf.arr!1", 0, int(n))
+		if b == nil {
+			b = make([]byte, n)
+		}
+		test := fmt.Sprintf(`package message
+
+import ("fmt"; "testing")
+
+func TestGovcReplay(t *testing.T) {
+	confirmed := false
+	try := func(in []byte) {
+		cp := append([]byte{}, in...)
+		out := func() (r []byte) { defer func() { if e := recover(); e != nil { confirmed = true; fmt.Printf("REPLAY-CONFIRMED removeEmptyBytes(%%x) panics: %%v\n", in, e) } }(); return removeEmptyBytes(cp) }()
+		end := len(in)
+		for end > 1 && in[end-1] == 0 { end-- }
+		if out != nil && (len(out) != end || string(out) != string(in[:end])) {
+			confirmed = true
+			fmt.Printf("REPLAY-CONFIRMED removeEmptyBytes(%%x) = %%x, the payload without its trailing zeros (at least one byte kept) is %%x\n", in, out, in[:end])
+		}
+	}
+	try(%s)
+	for n := 0; n <= 40; n++ { z := make([]byte, n); try(z); if n > 0 { z2 := make([]byte, n); z2[0] = 7; try(z2); z3 := make([]byte, n); z3[n-1] = 7; try(z3) } }
+	if !confirmed { fmt.Println("REPLAY-NOT-REPRODUCED") }
+}
+`, goBytes(b))
+		return c.runReplayTest("pkg/message", map[string]string{"test.go": test}, "TestGovcReplay")
 	case fn == "(*tlog.Writer).Write":
 		// a fixed family of entry sequences (encodable and unencodable frames, times before and after 1970, a failing
 		// file) written through the real writer; the file must be the concatenation of timestamp+frame of exactly the
